@@ -143,6 +143,8 @@ def build_harness(race=False):
         return exe, "cached"
     if os.path.exists(exe):
         os.remove(exe)
+    if os.path.exists(stamp):
+        os.remove(stamp)        # (a build that has to drop files writes no stamp: an older stamp must not vouch for it)
     # A change to /repo may break the compilation of ONE harness file (it touches an internal that the change
     # renamed or removed). Such files are dropped one by one (never main.go) so that the remaining streams can
     # still run and look for a failing input; the dropped files are reported as a broken correspondence.
